@@ -516,6 +516,11 @@ func RunCheck(opts *CheckOpts) int {
 			}
 		}()
 		r.Gen = g
+		if pat := os.Getenv("VP_ABSTRACTED"); pat != "" && strings.Contains(k, pat) {
+			for a := range g.Abstracted {
+				fmt.Println("ABSTRACTED", ShortKey(k), a)
+			}
+		}
 		if r.Err == "" && len(g.BindErrs) > 0 {
 			r.Err = "contract does not bind: " + strings.Join(g.BindErrs, "; ")
 		}
@@ -523,6 +528,22 @@ func RunCheck(opts *CheckOpts) int {
 			r.Err = "outside the verified subset: " + strings.Join(g.Unsupported, "; ")
 		}
 		if r.Err != "" {
+			// a `sequential` function that starts a goroutine is reported as such even
+			// when the rest of its contract no longer binds (the calls it names moved
+			// into the goroutine)
+			if c.Sequential {
+				n := 0
+				for _, b := range fn.Blocks {
+					for _, in := range b.Instrs {
+						if gi, ok := in.(*ssa.Go); ok {
+							o := &Obligation{Name: fmt.Sprintf("%s#no-go.%d", ShortKey(k), n), Kind: "no-go", Fn: k, Clause: "sequential: the function starts no goroutine", Pos: g.pos(gi.Pos()), Reach: True, Goal: False, Gen: g}
+							r.Obligations = append(r.Obligations, o)
+							all = append(all, o)
+							n++
+						}
+					}
+				}
+			}
 			continue
 		}
 		r.Obligations = g.Obls
@@ -1289,6 +1310,24 @@ func (g *Gen) refineOnce(ic *Contract, implC *Contract) {
 	}
 	if ic.Modifies != nil && !ic.Modifies.Star && !ic.Pure {
 		g.frameCheck(st, fn.Pos())
+	}
+	// what the interface contract promises to preserve, the implementation must
+	// promise too (there it is checked against the body)
+	if ic.Preserves != nil {
+		implModsNothing := implC.Modifies != nil && !implC.Modifies.Star && len(implC.Modifies.Mods) == 0
+		for _, m := range ic.Preserves.Mods {
+			found := implModsNothing || implC.Pure
+			if implC.Preserves != nil {
+				for _, im := range implC.Preserves.Mods {
+					if ExprString(im) == ExprString(m) {
+						found = true
+					}
+				}
+			}
+			if !found {
+				g.BindErrs = append(g.BindErrs, fmt.Sprintf("interface preserves %s is not promised by the implementation %s", ExprString(m), ShortKey(implKey)))
+			}
+		}
 	}
 	g.C = saved
 	g.curBlock = nil
